@@ -50,7 +50,9 @@ def generate(st):
         'fault_kinds': sorted(sw.sample(FAULTS, sw.randint(1, len(FAULTS)))),
         'rounds': 2 if sw.random() < 0.3 else 1,
         'falsy_results': sw.random() < 0.3,
-        'wide': sw.random() < 0.25,          # containers with many members
+        'wide': sw.random() < 0.25,
+        'tuple_keys': sw.random() < 0.25,
+        'giant': (sw.random() < (0.01 if getattr(st, 'deep', False) else 0.001)),     # a container with hundreds of plain members          # containers with many members
         'shared_containers': sw.random() < 0.3,      # the caller refills the SAME container objects and waits again
     }
     leaves = []
@@ -91,6 +93,8 @@ def generate(st):
             return {'t': 'same', 'ref': g.choice(okrefs)}       # the very same container object once more
         c = g.choice(cfg['containers'])
         n = g.choice([0, 1, 2, 2, 3, 3, 4]) if not (cfg.get('wide') and g.random() < 0.4) else g.choice([5, 6, 8, 11])
+        if cfg.get('giant') and top:
+            n = g.choice([511, 512, 513, 1024, 1025])
         items = [build(depth_left - 1, False) for _ in range(n)]
         node = {'t': c, 'items': items, 'id': len(made)}
         # a container may appear twice only if everything in it can be awaited twice (coroutine objects cannot)
@@ -99,8 +103,10 @@ def generate(st):
             pool = ['a', 'b', 'c', 'd', 'e', 'k1', 'k2', 'f', 'g', 'h', 'i', 'j']
             if c in ('dict', 'OrderedDict'):
                 pool = pool + [0, 1, 7]
+                if cfg.get('tuple_keys'):
+                    pool = pool + [['a', 'b'], ['a', 0], [0, 1], [0, 0], ['b', 'c'], [1, 'a']]
             g.shuffle(pool)
-            node['keys'] = pool[:n]
+            node['keys'] = pool[:n] if n <= len(pool) else ['k%d' % j for j in range(n)]
         return node
 
     top_kind = g.random()
@@ -175,6 +181,10 @@ def _ctor(name):
     import pyg_base
     return {'list': list, 'tuple': tuple, 'dict': dict, 'Dict': pyg_base.Dict,
             'dictattr': pyg_base.dictattr, 'OrderedDict': collections.OrderedDict}[name]
+
+
+def _keys(node):
+    return [tuple(k) if isinstance(k, list) else k for k in node['keys']]
 
 
 def _edit_empties(v, depth=0):
@@ -436,7 +446,7 @@ def execute(trace, ctx=None):
         if t in ('list', 'tuple'):
             o = _ctor(t)(items)
         else:
-            o = _ctor(t)(list(zip(node['keys'], items)))
+            o = _ctor(t)(list(zip(_keys(node), items)))
         if t != 'tuple' and recording['on']:
             containers.append((o, node))
             node_obj[id(node)] = o
@@ -466,7 +476,7 @@ def execute(trace, ctx=None):
             o[:] = items
         else:
             o.clear()
-            o.update(list(zip(node['keys'], items)))
+            o.update(list(zip(_keys(node), items)))
         return o
 
     def expected(node):
@@ -497,7 +507,7 @@ def execute(trace, ctx=None):
         items = [expected(x) for x in node['items']]
         if t in ('list', 'tuple'):
             return _ctor(t)(items)
-        return _ctor(t)(list(zip(node['keys'], items)))
+        return _ctor(t)(list(zip(_keys(node), items)))
 
     box = {}
 
@@ -702,9 +712,9 @@ def _same_skip(val, node, leaves, skip):
         return False
     if t in ('list', 'tuple'):
         return all(_same_skip(v, n, leaves, skip) for v, n in zip(val, node['items']))
-    if list(val.keys()) != list(node['keys']):
+    if list(val.keys()) != _keys(node):
         return False
-    return all(_same_skip(val[k], n, leaves, skip) for k, n in zip(node['keys'], node['items']))
+    return all(_same_skip(val[k], n, leaves, skip) for k, n in zip(_keys(node), node['items']))
 
 
 def _shape(node, leaves):
